@@ -188,16 +188,21 @@ class SystemMachine:
                 self.unjudged.append((info, msg))
 
     def check_height_message(self, hdr, what):
+        '''A notification carrying height h must not be written before block h is queryable.
+        (A headers.subscribe *reply* repeats the last notified tip, which inside a reorg window
+        may already be orphaned; the statement speaks about notifications, so replies are only
+        required to carry a header the daemon really had at that height.)'''
         db = self.server.db
         h = hdr.get('height')
-        if db.state.height < h:
-            self.fail(f'{what} carries height {h} but the database is at {db.state.height}',
-                      'height_before_queryable')
+        known = {b.header.hex() for b in self.world.blocks.values() if b.height == h}
+        if hdr.get('hex') not in known:
+            self.fail(f'{what} for height {h} carries a header no block at that height ever had',
+                      'header_unknown')
             return
-        on_disk = db.headers_file.read(h * 80, 80)
-        if on_disk.hex() != hdr.get('hex'):
-            self.fail(f'{what} for height {h} carries a header that is not the one on disk',
-                      'header_mismatch')
+        if 'notification' in what:
+            if db.state.height < h:
+                self.fail(f'{what} carries height {h} but the database is at {db.state.height}',
+                          'height_before_queryable')
 
     def fail(self, message, sig):
         if self.violation is None:
